@@ -111,10 +111,22 @@ func newCrashNode(f *Factory, cache uint64, crashAt int, prune uint64, maxFile u
 		n.close()
 		return nil, err
 	}
-	for _, pb := range f.Pre {
+	// pruned workloads: the last explicit flush of the cache lies a varying number of blocks in the past, so that
+	// with a large cache the consistency marker can sit inside the block file a prune of the workload deletes
+	flushAt := -1
+	if prune != 0 && len(f.Pre) > 30 {
+		flushAt = len(f.Pre) - 19 - int(uint64(f.Base.Unix()+int64(len(f.Pre))*7919+int64(f.Sc.N))%9)
+	}
+	for i, pb := range f.Pre {
 		if _, _, err := n.chain.ProcessBlock(btcutil.NewBlock(pb.MsgBlock()), blockchain.BFNone); err != nil {
 			n.close()
 			return nil, fmt.Errorf("preamble block refused: %w", err)
+		}
+		if i == flushAt {
+			if err := n.chain.FlushUtxoCache(blockchain.FlushRequired); err != nil {
+				n.close()
+				return nil, err
+			}
 		}
 	}
 	n.notes = nil
